@@ -255,3 +255,8 @@ def run(ctx):
     r = ctx.rule("R4c", "native loads and stores of inputs, outputs and spill slots move exactly one element of the evaluator's type (a wider access reads or writes past the caller's slice)", 16)
     for kind in AC_.ALL:
         ctx.guarded(r, AC_.check_simple_builders, kind, only=("build_input", "build_output", "build_load", "build_store"))
+    from .. import nanspread as NS
+
+    r = ctx.rule("R2j", "native interval add / sub: a result with one NaN bound (infinities of opposite sign) becomes the NaN interval before anything else sees it (NaN-lane abstraction of the x86_64 and aarch64 clauses)", 2 + 3)
+    for arch in ("x86_64", "aarch64"):
+        ctx.guarded(r, NS.check_nan_spread, arch)
